@@ -263,7 +263,9 @@ def rows_deser(d, rng):
         hx = "".join("%02x" % rng.choice([rng.randrange(256), 0x91, 0xa1, 0xc0, 0xca, 0xcb, 0xcc, 0xd0, 0x05, 0x81]) for _ in range(rng.randint(1, 10)))
         pos = rng.choice(["top", "vec"])
         ins.append({"fmt": "msgpack" if pos == "vec" else rng.choice(["msgpack", "msgpack_read"]), "pos": pos, "raw": {"hex": ("91" + hx) if pos == "vec" else hx}})
-    return [{"d": d["id"], "ep": "deser", "ins": ins}]
+    # routes that do not go through visit_newtype_struct (soundness only, see Trace_Value "deser_any")
+    anyins = [{"fmt": fmt, "pos": "top", "val": v} for fmt in ("seq_json", "ron_value") for v in vals]
+    return [{"d": d["id"], "ep": "deser", "ins": ins}, {"d": d["id"], "ep": "deser_any", "ins": anyins}]
 
 
 def check_C04():
